@@ -261,7 +261,8 @@ class Report:
             "notes": self.notes,
         }
         EVID.mkdir(exist_ok=True)
-        (EVID / f"{self.pid}.json").write_text(json.dumps(ev, indent=1, default=str))
+        if not rule.startswith("replay of "):      # a replay does not replace the evidence of the last full run
+            (EVID / f"{self.pid}.json").write_text(json.dumps(ev, indent=1, default=str))
         for k, what in self.known_hits.items():
             print(f"KNOWN-FINDING: property={self.pid} {k}: {what}")
         rc = 0
